@@ -63,8 +63,10 @@ def parseLengthPrefixed (b : Bytes) : LP :=
   | .ok none => .eof
   | .ok (some (size, rest)) =>
     if size == 0 then .frame {} rest
-    else if size ≥ 2 ^ 63 then .err .overflowError   -- `inp.read(size)`: size does not fit a ssize_t
     else
+      -- `_ChunkedReader.read(size)`: at most MAX_READ_SIZE is asked for at a time, until `size` bytes are there or the
+      -- input ends; nothing depends on how large the declared size is
+
       let data := rest.take size
       match decFrame data with
       | .error e => .err e
